@@ -405,6 +405,17 @@ def check_clone(repo: Repo, run: Run) -> None:
         new = rv.id
         ctor = strip_cast(p.env.get(new)) if p.env.get(new) is not None else None
         conds = flat_conds(p.conds)
+        ctor_name = (dotted(ctor.func) or ast.unparse(ctor.func)) if isinstance(ctor, ast.Call) else ""
+        if ctor_name.split(".")[-1] in ("copy", "deepcopy", "replace") and ctor.args and ast.unparse(ctor.args[0]) == cme:
+            whole_copy = True  # copy.copy(self): every field starts as the original's
+        elif any("__dict__" in ast.unparse(c) or "vars(" in ast.unparse(c) for c in p.calls):
+            unknown.append("fields are copied through __dict__")
+            continue
+        elif not (isinstance(ctor, ast.Call) and ctor_name.split(".")[-1] in (cls.name, "type(self)", "__class__")) and ctor_name not in (f"type({cme})", f"{cme}.__class__"):
+            unknown.append(f"the clone is created by `{ast.unparse(ctor)[:50] if ctor is not None else '?'}`")
+            continue
+        else:
+            whole_copy = False
 
         def cond_says(field: str, truthy: bool) -> bool:
             for t, pol in conds:
@@ -424,7 +435,7 @@ def check_clone(repo: Repo, run: Run) -> None:
             if stored is None and setter is not None and f in set_fields and p.env.get(f"{new}.value") is not None:
                 sv = set_fields[f]
                 via_prop = p.env[f"{new}.value"] if (isinstance(sv, ast.Name) and sv.id == sparam) else sv
-            if stored is None and via_prop is None and isinstance(ctor, ast.Call) and (dotted(ctor.func) or "").split(".")[-1] in (cls.name, "type(self)", "__class__"):
+            if stored is None and via_prop is None and isinstance(ctor, ast.Call) and not whole_copy:
                 for i, a in enumerate(ctor.args):
                     if i < len(params) and by_param.get(params[i]) == f:
                         stored = a
@@ -443,6 +454,8 @@ def check_clone(repo: Repo, run: Run) -> None:
                     problems.append(f"on the path `{p.cond_text()[:70]}` the clone's {f} is the constant {val.value!r} whatever the original's {f} is")
                     continue
                 unknown.append(f"{f} = `{txt[:50]}`")
+                continue
+            if whole_copy:
                 continue
             # not written on this path: the default of __init__ stands
             d = defaults.get(f)
